@@ -171,11 +171,18 @@ func RunSharedRT(seed int64, out io.Writer) {
 		if seed%3 == 0 {
 			slowAlloc = 350 * time.Millisecond
 		}
+		var slowCap time.Duration
+		if seed%3 == 1 {
+			slowCap = 12 * time.Millisecond
+		}
 		slowListener := func(inner func(event string, val int, msg string, metadata interface{})) func(event string, val int, msg string, metadata interface{}) {
 			return func(event string, val int, msg string, metadata interface{}) {
 				inner(event, val, msg, metadata)
 				if event == "allocated" && slowAlloc > 0 {
 					time.Sleep(slowAlloc)
+				}
+				if event == "capacity" && slowCap > 0 {
+					time.Sleep(slowCap) // a listener of the capacity event that takes a moment (a metrics call, say)
 				}
 			}
 		}
